@@ -241,6 +241,77 @@ fn hash_of<T: std::hash::Hash>(t: &T) -> u64 {
     h.finish()
 }
 
+/// A hasher that keeps the typed `write_*` calls apart (word-at-a-time hashers such as FxHash do): the digest
+/// depends on the SEQUENCE of (method, value) calls, not only on the concatenated bytes.
+struct CallSeqHasher {
+    inner: std::hash::SipHasher,
+}
+
+impl CallSeqHasher {
+    fn new() -> Self {
+        #[allow(deprecated)]
+        let inner = std::hash::SipHasher::new_with_keys(0x5eed, 0xca11);
+        Self { inner }
+    }
+    fn tag(&mut self, t: u8, bytes: &[u8]) {
+        use std::hash::Hasher;
+        self.inner.write(&[t, bytes.len() as u8]);
+        self.inner.write(bytes);
+    }
+}
+
+impl std::hash::Hasher for CallSeqHasher {
+    fn finish(&self) -> u64 {
+        self.inner.finish()
+    }
+    fn write(&mut self, bytes: &[u8]) {
+        self.tag(0, bytes);
+    }
+    fn write_u8(&mut self, i: u8) {
+        self.tag(1, &i.to_le_bytes());
+    }
+    fn write_u16(&mut self, i: u16) {
+        self.tag(2, &i.to_le_bytes());
+    }
+    fn write_u32(&mut self, i: u32) {
+        self.tag(3, &i.to_le_bytes());
+    }
+    fn write_u64(&mut self, i: u64) {
+        self.tag(4, &i.to_le_bytes());
+    }
+    fn write_u128(&mut self, i: u128) {
+        self.tag(5, &i.to_le_bytes());
+    }
+    fn write_usize(&mut self, i: usize) {
+        self.tag(6, &i.to_le_bytes());
+    }
+    fn write_i8(&mut self, i: i8) {
+        self.tag(7, &i.to_le_bytes());
+    }
+    fn write_i16(&mut self, i: i16) {
+        self.tag(8, &i.to_le_bytes());
+    }
+    fn write_i32(&mut self, i: i32) {
+        self.tag(9, &i.to_le_bytes());
+    }
+    fn write_i64(&mut self, i: i64) {
+        self.tag(10, &i.to_le_bytes());
+    }
+    fn write_i128(&mut self, i: i128) {
+        self.tag(11, &i.to_le_bytes());
+    }
+    fn write_isize(&mut self, i: isize) {
+        self.tag(12, &i.to_le_bytes());
+    }
+}
+
+fn callseq_hash_of<T: std::hash::Hash>(t: &T) -> u64 {
+    use std::hash::Hasher;
+    let mut h = CallSeqHasher::new();
+    t.hash(&mut h);
+    h.finish()
+}
+
 /// Place the string into its own exact-size heap allocation, so that any
 /// read beyond its end leaves the allocation (visible to ASan / Miri /
 /// memcheck).
@@ -408,6 +479,12 @@ fn execute(line: &str) -> Result<String, String> {
         ),
         // ---- hashing
         "hash" => format!("U {}", hash_of(&pdec(arg(1)?)?)),
+        "hashseq" => {
+            // digest of the Decimal and of the given (numerator, denominator) pair under the call-sequence hasher
+            let d = pdec(arg(1)?)?;
+            let pair = (pi128(arg(2)?)?, pi128(arg(3)?)?);
+            format!("U {} {}", callseq_hash_of(&d), callseq_hash_of(&pair))
+        }
         "hashpair" => {
             format!("U {}", hash_of(&(pi128(arg(1)?)?, pi128(arg(2)?)?)))
         }
@@ -731,6 +808,12 @@ fn main() {
     }
     if args.len() >= 2 && args[1] == "--sweep-tof" {
         std::process::exit(sweeps::sweep_tof(&args[2..]));
+    }
+    if args.len() >= 2 && args[1] == "--sweep-ratio" {
+        std::process::exit(sweeps::sweep_ratio(&args[2..]));
+    }
+    if args.len() >= 2 && args[1] == "--sweep-f32-hard" {
+        std::process::exit(sweeps::sweep_f32_hard(&args[2..]));
     }
     if args.len() >= 2 && args[1] == "--sweep-tof32-hard" {
         std::process::exit(sweeps::sweep_tof32_hard(&args[2..]));
